@@ -189,6 +189,7 @@ public:
           else
             break;
         }
+        enqueuedSignal.set(); // this worker may have reset the signal that was meant for another worker's terminate job
         _terminated = true;
         return 0;
       }
@@ -339,8 +340,11 @@ void Future<void>::Private::FastSignal::set()
 
 void Future<void>::Private::FastSignal::reset()
 {
-  if (Atomic::swap(_state, 0) == 1)
-    _signal.reset();
+  // the signal first, then the flag: a concurrent set() then leaves at worst the signal set with the flag cleared (the
+  // next wait() returns at once and the caller resets again), never the flag set with the signal reset, in which
+  // state every later set() would be skipped while threads sleep in wait()
+  _signal.reset();
+  Atomic::swap(_state, 0);
 }
 
 bool Future<void>::Private::FastSignal::wait()
